@@ -112,6 +112,7 @@ func (f *Frame) execInstr(b *ssa.BasicBlock, in ssa.Instruction, o *blockOut) bo
 	case *ssa.Alloc:
 		et := x.Type().Underlying().(*types.Pointer).Elem()
 		r := vc.newRef("new." + x.Comment)
+		vc.markAlloc(st, r, et)
 		p := Val{K: KPtr, T: r, Typ: x.Type()}
 		if kindOf(et) == KArray {
 			// array storage: elements zero-initialised lazily (unconstrained contents are a sound over-approximation for reads)
@@ -154,8 +155,8 @@ func (f *Frame) execInstr(b *ssa.BasicBlock, in ssa.Instruction, o *blockOut) bo
 		idx := f.val(x.Index)
 		if base.K == KStr {
 			f.safety("index", x, And(Le(IntLit(0), idx.T), Lt(idx.T, vc.strLen(base.T))), g, "string index in range")
-			vc.decls.Fun("str.at", []Sort{SStr, SInt}, SInt)
-			t := App(SInt, "str.at", base.T, idx.T)
+			vc.decls.Fun("gstr.at", []Sort{SStr, SInt}, SInt)
+			t := App(SInt, "gstr.at", base.T, idx.T)
 			vc.assumeRaw(And(Le(IntLit(0), t), Le(t, IntLit(255))))
 			f.env[x] = Val{K: KInt, T: t, Typ: x.Type()}
 		} else {
@@ -221,8 +222,8 @@ func (f *Frame) execInstr(b *ssa.BasicBlock, in ssa.Instruction, o *blockOut) bo
 		k := f.val(x.Index)
 		if m.K == KStr {
 			f.safety("index", x, And(Le(IntLit(0), k.T), Lt(k.T, vc.strLen(m.T))), g, "string index in range")
-			vc.decls.Fun("str.at", []Sort{SStr, SInt}, SInt)
-			t := App(SInt, "str.at", m.T, k.T)
+			vc.decls.Fun("gstr.at", []Sort{SStr, SInt}, SInt)
+			t := App(SInt, "gstr.at", m.T, k.T)
 			vc.assumeRaw(And(Le(IntLit(0), t), Le(t, IntLit(255))))
 			f.env[x] = Val{K: KInt, T: t, Typ: x.Type()}
 			return false
@@ -325,6 +326,22 @@ func (vc *VC) newRef(hint string) Term {
 	return r
 }
 
+// markAlloc records a fresh object in the ghost allocation set.
+func (vc *VC) markAlloc(st *State, r Term, t types.Type) {
+	a := vc.heapGet(st, "G.alloc", ArrSort(SInt, SBool))
+	vc.assumeRaw(Not(Select(a, r)))
+	vc.heapSet(st, "G.alloc", vc.nameTerm(Store(a, r, True), "G.alloc"))
+	// struct-typed fields embedded in a fresh object are fresh objects too
+	if s, ok := structOf(t); ok {
+		skey := typeKey(t)
+		for i := 0; i < s.NumFields(); i++ {
+			if _, isS := structOf(s.Field(i).Type()); isS {
+				vc.markAlloc(st, vc.subObj(r, skey, s.Field(i).Name()), s.Field(i).Type())
+			}
+		}
+	}
+}
+
 func (vc *VC) zeroElems(st *State, arr Term, et types.Type) {
 	if _, isStruct := structOf(et); isStruct {
 		return // element objects: fields unconstrained (sound over-approximation)
@@ -358,9 +375,9 @@ func (f *Frame) binop(x *ssa.BinOp, g Term) Val {
 		case token.ADD:
 			return Val{K: KStr, T: vc.strCat(a.T, b.T), Typ: t}
 		case token.LSS, token.LEQ, token.GTR, token.GEQ:
-			vc.decls.Fun("str.lt", []Sort{SStr, SStr}, SBool)
-			lt := App(SBool, "str.lt", a.T, b.T)
-			gt := App(SBool, "str.lt", b.T, a.T)
+			vc.decls.Fun("gstr.lt", []Sort{SStr, SStr}, SBool)
+			lt := App(SBool, "gstr.lt", a.T, b.T)
+			gt := App(SBool, "gstr.lt", b.T, a.T)
 			switch x.Op {
 			case token.LSS:
 				return Val{K: KBool, T: lt, Typ: t}
@@ -648,7 +665,7 @@ func (f *Frame) convert(x *ssa.Convert) Val {
 		// []byte(s): fresh array of the same length
 		arr := vc.newRef("bytes")
 		l := vc.strLen(v.T)
-		vc.decls.Fun("str.ofbytes", []Sort{ArrSort(SInt, SInt), SInt, SInt}, SStr)
+		vc.decls.Fun("gstr.ofbytes", []Sort{ArrSort(SInt, SInt), SInt, SInt}, SStr)
 		return Val{K: KSlice, T: arr, Off: IntLit(0), Len: l, Cap: l, Typ: to}
 	case fk == KSlice && tk == KStr:
 		r := vc.freshVal(to, "string")
